@@ -33,6 +33,32 @@ theorem C04_every_run_starts_idle (p : Prog) (h : Hist) {s0 s : St} (hc : Ctl s0
   have := f.top; rw [hst] at this
   exact ⟨(idle_iff s).mp this.1, this.2⟩
 
+/-- **An exclusive run's access ends with its first flush.** In every execution: while the body of an exclusive system is
+    running, either its reader clean-up is still the first command on the world queue — nothing the body queued has been
+    applied yet — or all four trackers are idle. In particular, once the world queue has been flushed in the middle of the
+    body (`world.flush()`, or an in-line `World`-level sender, which flushes) the rest of the body reads no event, and neither
+    does anything that flush applied (`C04_commands_start_idle`). (Reading R6: `run_initialized_system` queues an exclusive
+    system's clean-up before its body.) -/
+theorem C04_exclusive_body_access (p : Prog) (h : Hist) {s0 s : St} (hc : Ctl s0) (ho : OnceInv s0) (hf : FlagInv s0)
+    (hr : Reach p h s0 s) {sys i : Nat} {rest : List Frame} (hst : s.stack = .exclActs sys i :: rest) :
+    (∃ k tl, s.wq = Cmd.cleanup k :: tl) ∨ Idle s := by
+  obtain ⟨_, _, f⟩ := all_reach p h hc ho hf hr
+  have := f.top; rw [hst] at this
+  rcases this with ⟨k, tl, hwq, _, _⟩ | ⟨hi, _⟩
+  · exact Or.inl ⟨k, tl, hwq⟩
+  · exact Or.inr ((idle_iff s).mp hi)
+
+theorem C04_exclusive_body_after_flush (p : Prog) (h : Hist) {s0 s : St} (hc : Ctl s0) (ho : OnceInv s0) (hf : FlagInv s0)
+    (hr : Reach p h s0 s) {sys i : Nat} {rest : List Frame} (hst : s.stack = .exclActs sys i :: rest) (hw : s.wq = []) : Idle s := by
+  rcases C04_exclusive_body_access p h hc ho hf hr hst with ⟨k, tl, hwq⟩ | hi
+  · rw [hw] at hwq; cases hwq
+  · exact hi
+
+/-- Non-vacuity: a body that flushes leaves its own frame below the flush, the queued clean-up still first in line. -/
+example : (doExclActs (fun _ _ _ => some Act.flushWorld) ({ wq := [Cmd.cleanup .plain] } : St) 3 0).stack = [Frame.flush, Frame.exclActs 3 1] ∧
+    (doExclActs (fun _ _ _ => some Act.flushWorld) ({ wq := [Cmd.cleanup .plain] } : St) 3 0).wq = [Cmd.cleanup .plain] := by
+  constructor <;> rfl
+
 /-- The same at every command boundary: when a batch is about to apply a command that is not the queued cleanup of an
     exclusive system, the trackers are idle. -/
 theorem C04_commands_start_idle (p : Prog) (h : Hist) {s0 s : St} (hc : Ctl s0) (ho : OnceInv s0) (hf : FlagInv s0)
